@@ -24,6 +24,9 @@ func init() {
 	} {
 		assumeSite("C02-CTL", e[0], e[1])
 	}
+	for _, f := range []string{"key", "value"} {
+		assumeSite("C02-FRAME", "node.(YieldFromControl)#keeps-value:"+f, "`yield from` keeps its iteration state in the node that doubles as the control object; generators are outside the program class of C02 (two generators started from one `yield from` site share this state — observation in DESIGN.md)")
+	}
 	register(&PropDef{
 		ID:          "C02",
 		Patterns:    []string{"./node", "./data", "./runtime", "./parser"},
@@ -37,7 +40,8 @@ func init() {
 			{Name: "C02-OWN", Floor: 8, Doc: "a loop's break arm and a function's return arm hand back a nil control", Run: nop},
 			{Name: "C02-CTL", Floor: 150, Doc: "a control returned by a child evaluation is tested, returned or passed on before the next evaluation, before it is overwritten and before the function returns", Run: nop},
 			{Name: "C02-FALL", Floor: 1, Doc: "switch: a case block that ends without a control is followed by the next block (the block evaluation sits in a loop over the cases and is not followed by an unconditional return)", Run: nop},
-			{Name: "C02-LEVEL", Floor: 1, Doc: "the level of break N / continue N is read by the loop nodes", Run: nop},
+			{Name: "C02-LEVEL", Floor: 6, Doc: "the level of break N / continue N is read by the loop nodes", Run: nop},
+			{Name: "C02-FRAME", Floor: 100, Doc: "evaluation methods of AST nodes keep no run-time values (data.Value, cells, contexts) in the node: a node is shared by every activation that reaches it, recursive ones included", Run: nop},
 			{Name: "C02-CTX", Floor: 1, Doc: "Context.CreateContext allocates a fresh variable vector for every call", Run: nop},
 		},
 	})
@@ -599,7 +603,9 @@ func c02Run(r *Run) {
 		}
 	}
 	c02Fall(r, npkg)
+	c02Frame(r, npkg)
 	c02Level(r, npkg)
+	c02Reducers(r, npkg)
 	c02Ctx(r)
 }
 
@@ -643,6 +649,114 @@ func c02Level(r *Run, npkg *packages.Package) {
 			c02ParserLevel(r, nt, tn)
 		} else {
 			r.bad(key, lvl.Pos(), "the parser stores the level of `"+strings.ToLower(strings.TrimSuffix(tn, "Statement"))+" N` but no loop node ever reads it: it behaves like level 1")
+		}
+	}
+}
+
+// c02Reducers: functions that turn a break/continue control into what the enclosing construct must
+// see (parameter data.BreakControl / data.ContinueControl, result data.Control) hand back nil or a
+// control whose level is exactly one less.
+func c02Reducers(r *Run, npkg *packages.Package) {
+	r.curRule = "C02-LEVEL"
+	info := npkg.TypesInfo
+	levelMinusOne := func(e ast.Expr, base string) bool {
+		be, ok := ast.Unparen(e).(*ast.BinaryExpr)
+		if !ok || be.Op != token.SUB || exprStr(be.Y) != "1" {
+			return false
+		}
+		se, ok := ast.Unparen(be.X).(*ast.SelectorExpr)
+		if !ok || !strings.EqualFold(se.Sel.Name, "level") {
+			return false
+		}
+		return base == "" || exprStr(se.X) == base
+	}
+	freshReduced := func(e ast.Expr, base string) bool {
+		ue, ok := ast.Unparen(e).(*ast.UnaryExpr)
+		if !ok || ue.Op != token.AND {
+			return false
+		}
+		cl, ok := ue.X.(*ast.CompositeLit)
+		if !ok {
+			return false
+		}
+		for _, el := range cl.Elts {
+			if kv, ok := el.(*ast.KeyValueExpr); ok && strings.EqualFold(exprStr(kv.Key), "level") {
+				return levelMinusOne(kv.Value, base)
+			}
+		}
+		return false
+	}
+	for _, fd := range funcDecls(npkg) {
+		if fd.Recv != nil || fd.Type.Params == nil || len(fd.Type.Params.List) != 1 || fd.Type.Results == nil || len(fd.Type.Results.List) != 1 {
+			continue
+		}
+		pt := info.TypeOf(fd.Type.Params.List[0].Type)
+		if controlKind(pt) != "Break" && controlKind(pt) != "Continue" {
+			continue
+		}
+		if !isNamed(info.TypeOf(fd.Type.Results.List[0].Type), modPath+"/data", "Control") {
+			continue
+		}
+		key := funcKey(npkg, fd) + "#reduces-level-by-one"
+		okAll, n := true, 0
+		why := ""
+		ast.Inspect(fd.Body, func(m ast.Node) bool {
+			rs, ok := m.(*ast.ReturnStmt)
+			if !ok || len(rs.Results) != 1 {
+				return true
+			}
+			n++
+			res := ast.Unparen(rs.Results[0])
+			switch {
+			case exprStr(res) == "nil":
+			case freshReduced(res, ""):
+			default:
+				// a remembered control: p.f — every store into f must build Level: X.Level - 1 for the same X
+				se, isSel := res.(*ast.SelectorExpr)
+				good := false
+				if isSel {
+					if sel, ok := info.Selections[se]; ok && sel.Kind() == types.FieldVal {
+						fld := sel.Obj()
+						stores, fine := 0, true
+						for _, f2 := range funcDecls(npkg) {
+							ast.Inspect(f2.Body, func(k ast.Node) bool {
+								as, ok := k.(*ast.AssignStmt)
+								if !ok {
+									return true
+								}
+								for i, l := range as.Lhs {
+									ls, ok := ast.Unparen(l).(*ast.SelectorExpr)
+									if !ok {
+										continue
+									}
+									if s2, ok := info.Selections[ls]; !ok || s2.Obj() != fld {
+										continue
+									}
+									stores++
+									if i >= len(as.Rhs) || !freshReduced(as.Rhs[i], exprStr(ls.X)) {
+										fine = false
+									}
+								}
+								return true
+							})
+						}
+						good = stores > 0 && fine
+					}
+				}
+				if !good {
+					okAll = false
+					why = exprStr(res)
+				}
+			}
+			return true
+		})
+		if n == 0 {
+			continue
+		}
+		if okAll {
+			r.ok(key, fd.Pos(), "hands back nil or a control whose level is the received level minus one")
+		} else {
+			r.bad(key, fd.Pos(), "returns "+why+", which is not provably a control of level-1 (neither nil, nor &T{Level: x.Level - 1}, nor a field every store of which builds X.Level - 1): `break N` / `continue N` may unwind the wrong number of constructs")
 		}
 	}
 }
@@ -862,5 +976,49 @@ func c02Fall(r *Run, npkg *packages.Package) {
 	walk(fd.Body.List, false)
 	if n == 0 {
 		r.fail("no evaluation of a case block found in (*node.SwitchStatement).GetValue")
+	}
+}
+
+// c02Frame: no node type stores run-time values into itself during evaluation.
+func c02Frame(r *Run, npkg *packages.Package) {
+	r.curRule = "C02-FRAME"
+	dataPath := modPath + "/data"
+	var isRuntime func(t types.Type, depth int) bool
+	isRuntime = func(t types.Type, depth int) bool {
+		if t == nil || depth > 3 {
+			return false
+		}
+		if isNamed(t, dataPath, "Value") || isNamed(t, dataPath, "Context") || isNamed(t, dataPath, "ZVal") {
+			return true
+		}
+		switch u := t.(type) {
+		case *types.Pointer:
+			return isRuntime(u.Elem(), depth+1)
+		case *types.Slice:
+			return isRuntime(u.Elem(), depth+1)
+		case *types.Array:
+			return isRuntime(u.Elem(), depth+1)
+		case *types.Map:
+			return isRuntime(u.Elem(), depth+1)
+		}
+		return false
+	}
+	writes, examined := evalClosureFieldWrites(npkg)
+	bad := map[string]bool{}
+	for _, w := range writes {
+		if isRuntime(w.ftype, 0) {
+			bad[w.typeName] = true
+			r.bad("node.("+w.typeName+")#keeps-value:"+w.field, w.pos, "during evaluation the node stores run-time data ("+types.TypeString(w.ftype, func(p *types.Package) string { return p.Name() })+") in its own field "+w.field+": the node is shared by every activation that reaches it, so a nested or recursive evaluation of the same site overwrites it")
+		}
+	}
+	tns := []string{}
+	for tn := range examined {
+		tns = append(tns, tn)
+	}
+	sort.Strings(tns)
+	for _, tn := range tns {
+		if !bad[tn] {
+			r.ok("node.("+tn+")#no-values-in-node", examined[tn], "evaluation methods keep no run-time value in the node")
+		}
 	}
 }
